@@ -223,16 +223,20 @@ structure Outer where
   rewound : List Nat
   logs : List (List Nat)
 
+/-- `fiduccia_mattheyses.rs:95-126`: the state at the start of a pass (all vertices free, gains
+computed from scratch). -/
+def initPass (g : Graph) (o : Outer) : PassSt :=
+  { part := o.part, pw0 := o.pw0, pw1 := o.pw1
+    gains := (List.range o.part.length).map (fun v => some (gainOf g o.part v))
+    cur := o.best, best := o.best, bestAt := none, bad := 0, hist := [], log := [] }
+
 /-- `fiduccia_mattheyses.rs:95-224`: one pass. -/
 def onePass (ch : Nat → Nat) (prm : Params) (g : Graph) (ws : List Int) (cap mpg : Int)
     (o : Outer) : Except Abort Outer :=
-  let n := o.part.length
-  let gs := (List.range n).map (gainOf g o.part)
-  if !(gs.all (inRange mpg)) then .error .bucketIndex else
-  let st0 : PassSt :=
-    { part := o.part, pw0 := o.pw0, pw1 := o.pw1, gains := gs.map some
-      cur := o.best, best := o.best, bestAt := none, bad := 0, hist := [], log := [] }
-  match movesLoop ch prm g ws cap mpg (n + 1) 0 st0 with
+  -- the `insert`s of line 125
+  if !((List.range o.part.length).all (fun v => inRange mpg (gainOf g o.part v))) then
+    .error .bucketIndex else
+  match movesLoop ch prm g ws cap mpg (o.part.length + 1) 0 (initPass g o) with
   | .error a => .error a
   | .ok st =>
     let r := rewindTo st.bestAt
